@@ -197,12 +197,12 @@ Proof. unfold refuses. now rewrite existsb_exists. Qed.
 
 (** The exception (known class [wc-commit-immutable-at-start]): [x] is the invoking
     workspace's working-copy commit [w], immutable before the command, and the command acts
-    on it implicitly; for [jj commit] also the descendants of [w], rebased with it. *)
+    on it implicitly. *)
 Definition Exempt (r : repo) (ev : event) (x : nat) : Prop :=
   exists w, wc_of (r_view r) (e_ws ev) = Some w
             /\ immb (r_graph r) (r_view r) (e_cfg ev) w = true
             /\ implicit_wc_cmd (e_cmd ev) = true
-            /\ (x = w \/ (e_cmd ev = CCommit /\ anc (r_graph r) w x)).
+            /\ x = w.
 
 (** [x] disappears or is recorded as rewritten by the step. *)
 Definition Touched (r : repo) (ev : event) (x : nat) : Prop :=
@@ -215,7 +215,7 @@ Lemma accept_inv r ev r' : accept r ev = Some r' ->
             (filter (immb (r_graph r) (r_view r) (e_cfg ev)) (vis_list (r_graph r) (r_view r))) = true
   /\ (if (e_status ev =? 0)%N then accept_ok r ev
       else if (e_status ev =? 1)%N
-           then refuses (r_graph r) (r_view r) (e_cfg ev) (e_cmd ev) && unchanged r ev
+           then refuses (r_graph r) (r_view r) (eff_cfg ev) (e_cmd ev) && unchanged r ev
            else unchanged r ev) = true.
 Proof.
   unfold accept. intros H.
@@ -229,14 +229,14 @@ Proof. destruct c; cbn; congruence. Qed.
 
 (** Unfolding [accept_ok] into its conjuncts (in order). *)
 Lemma accept_ok_parts r ev : accept_ok r ev = true ->
-  let g := r_graph r in let v := r_view r in let e := e_cfg ev in let c := e_cmd ev in
+  let g := r_graph r in let v := r_view r in let e := eff_cfg ev in let c := e_cmd ev in
   let g' := g ++ e_new ev in let v' := e_view ev in
   let wc := wc_of v (e_ws ev) in
   let pre := vis_list g v in
   let hidden := filter (fun x => negb (visb g' v' x)) pre in
   let roots := rewrite_roots g wc c in
   let snap_child := match c, wc with CSnapshot, Some w => immb g v e w | _, _ => false end in
-  let allowed := fun x => visb g v x && descb g roots x in
+  let allowed := fun x => visb g v x && descb g roots x && (memn x roots || negb (immb g v e x)) in
   refuses g v e c = false
   /\ wf_from (e_new ev) (length g) = true
   /\ (if snap_child then e_rewritten ev = [] else forall x, In x (e_rewritten ev) -> allowed x = true)
@@ -270,40 +270,43 @@ Proof. unfold wc_abandoned. rewrite !andb_true_iff. tauto. Qed.
     recorded as rewritten, or that disappears, falls under the exception. *)
 Lemma accept_no_rewrite r ev r' :
   wf_graph (r_graph r) -> accept r ev = Some r' -> e_status ev = 0%N ->
+  e_override ev = false ->
   forall x, In x (vis_list (r_graph r) (r_view r)) ->
     immb (r_graph r) (r_view r) (e_cfg ev) x = true ->
     Touched r ev x -> Exempt r ev x.
 Proof.
-  intros Hg Hacc Hst x Hvis Himm Ht.
+  intros Hg Hacc Hst Hov x Hvis Himm Ht.
   apply accept_inv in Hacc. destruct Hacc as [_ [_ Hok]].
   rewrite Hst in Hok. cbn in Hok.
   pose proof (accept_ok_parts r ev Hok) as P. cbv zeta in P.
+  assert (Heff : eff_cfg ev = e_cfg ev) by (unfold eff_cfg; now rewrite Hov).
+  rewrite Heff in P.
   destruct P as [Href [_ [Hrew [Hhid _]]]].
   unfold Exempt.
-  (* a commit allowed to be rewritten is mutable unless the exception applies *)
+  (* a commit allowed to be rewritten is a mutable descendant of the roots, or a root; the roots
+     are mutable unless the exception applies *)
   assert (Hallowed :
     (match e_cmd ev, wc_of (r_view r) (e_ws ev) with
      | CSnapshot, Some w => immb (r_graph r) (r_view r) (e_cfg ev) w
      | _, _ => false end) = false ->
     visb (r_graph r) (r_view r) x
-    && descb (r_graph r) (rewrite_roots (r_graph r) (wc_of (r_view r) (e_ws ev)) (e_cmd ev)) x = true ->
+    && descb (r_graph r) (rewrite_roots (r_graph r) (wc_of (r_view r) (e_ws ev)) (e_cmd ev)) x
+    && (memn x (rewrite_roots (r_graph r) (wc_of (r_view r) (e_ws ev)) (e_cmd ev))
+        || negb (immb (r_graph r) (r_view r) (e_cfg ev) x)) = true ->
     exists w, wc_of (r_view r) (e_ws ev) = Some w
               /\ immb (r_graph r) (r_view r) (e_cfg ev) w = true
               /\ implicit_wc_cmd (e_cmd ev) = true
-              /\ (x = w \/ (e_cmd ev = CCommit /\ anc (r_graph r) w x))).
-  { intros Hsc Hal. apply andb_true_iff in Hal. destruct Hal as [_ Hd].
-    apply (descb_spec _ _ _ Hg) in Hd. destruct Hd as [t [Hin Hanc]].
-    assert (Htimm : immb (r_graph r) (r_view r) (e_cfg ev) t = true)
-      by (eapply immb_downclosed; eauto).
-    destruct (e_cmd ev) eqn:Ec; cbn [rewrite_roots] in Hin;
-      try (rewrite (refuses_false _ _ _ _ Href t Hin) in Htimm; discriminate).
+              /\ x = w).
+  { intros Hsc Hal. apply andb_true_iff in Hal. destruct Hal as [_ Hr].
+    rewrite Himm in Hr. cbn [negb] in Hr. rewrite orb_false_r in Hr. apply memn_spec in Hr.
+    destruct (e_cmd ev) eqn:Ec; cbn [rewrite_roots] in Hr;
+      try (rewrite (refuses_false _ _ _ _ Href x Hr) in Himm; discriminate).
     - (* CCommit *)
       destruct (wc_of (r_view r) (e_ws ev)) as [w|]; [|contradiction].
-      destruct Hin as [<-|[]]. exists w.
-      split; [reflexivity|]. split; [assumption|]. split; [reflexivity|]. right. split; [reflexivity|assumption].
+      destruct Hr as [<-|[]]. exists w. auto.
     - (* CSnapshot *)
       destruct (wc_of (r_view r) (e_ws ev)) as [w|]; [|contradiction].
-      destruct Hin as [<-|[]]. congruence. }
+      destruct Hr as [<-|[]]. congruence. }
   destruct Ht as [Ht|Ht].
   - (* recorded as rewritten *)
     destruct (match e_cmd ev, wc_of (r_view r) (e_ws ev) with
@@ -317,7 +320,7 @@ Proof.
     { apply filter_In. split; [assumption|]. now rewrite Ht. }
     destruct (Hhid x Hh) as [[Hsc Hal]|[w [Ew [-> Hab]]]].
     + now apply Hallowed.
-    + exists w. split; [assumption|]. split; [assumption|]. split; [|left; reflexivity].
+    + exists w. split; [assumption|]. split; [assumption|]. split; [|reflexivity].
       apply wc_abandoned_leaves in Hab. eapply leaves_wc_implicit; eauto.
 Qed.
 
@@ -332,7 +335,7 @@ Proof.
 Qed.
 
 Lemma accept_failed r ev r' : accept r ev = Some r' -> e_status ev <> 0%N ->
-  unchanged r ev = true /\ (e_status ev = 1%N -> refuses (r_graph r) (r_view r) (e_cfg ev) (e_cmd ev) = true).
+  unchanged r ev = true /\ (e_status ev = 1%N -> refuses (r_graph r) (r_view r) (eff_cfg ev) (e_cmd ev) = true).
 Proof.
   intros Hacc Hst. apply accept_inv in Hacc. destruct Hacc as [_ [_ Hok]].
   destruct (e_status ev =? 0)%N eqn:E0; [apply N.eqb_eq in E0; contradiction|].
@@ -369,7 +372,7 @@ Proof.
 Qed.
 
 Definition NoRewrite (r : repo) (ev : event) : Prop :=
-  e_status ev = 0%N ->
+  e_status ev = 0%N -> e_override ev = false ->
   forall x, In x (vis_list (r_graph r) (r_view r)) ->
     immb (r_graph r) (r_view r) (e_cfg ev) x = true ->
     Touched r ev x -> Exempt r ev x.
@@ -377,7 +380,7 @@ Definition NoRewrite (r : repo) (ev : event) : Prop :=
 Lemma run_no_rewrite evs r r' :
   wf_graph (r_graph r) -> run r evs = Some r' -> run_prop NoRewrite r evs.
 Proof.
-  apply run_prop_intro. intros r0 ev r1 Hg Ha Hst. now apply (accept_no_rewrite r0 ev r1).
+  apply run_prop_intro. intros r0 ev r1 Hg Ha Hst Hov. now apply (accept_no_rewrite r0 ev r1).
 Qed.
 
 (** A refused or failed command changes nothing; a refusal names an immutable target; an
@@ -385,10 +388,10 @@ Qed.
 Definition Guarded (r : repo) (ev : event) : Prop :=
   (e_status ev = 0%N ->
      forall t, In t (check_targets (r_graph r) (e_cmd ev)) ->
-               immb (r_graph r) (r_view r) (e_cfg ev) t = false)
+               immb (r_graph r) (r_view r) (eff_cfg ev) t = false)
   /\ (e_status ev = 1%N ->
         exists t, In t (check_targets (r_graph r) (e_cmd ev))
-                  /\ immb (r_graph r) (r_view r) (e_cfg ev) t = true)
+                  /\ immb (r_graph r) (r_view r) (eff_cfg ev) t = true)
   /\ (e_status ev <> 0%N ->
         e_nops ev = 0 /\ e_view ev = r_view r /\ e_new ev = [] /\ e_rewritten ev = []).
 
@@ -417,7 +420,7 @@ Proof. apply run_prop_intro. intros. eapply accept_guarded; eauto. Qed.
 Definition SnapshotOnImmutable (r : repo) (ev : event) : Prop :=
   e_status ev = 0%N -> e_cmd ev = CSnapshot ->
   forall w, wc_of (r_view r) (e_ws ev) = Some w ->
-    immb (r_graph r) (r_view r) (e_cfg ev) w = true ->
+    immb (r_graph r) (r_view r) (eff_cfg ev) w = true ->
     e_rewritten ev = []
     /\ (forall x, In x (vis_list (r_graph r) (r_view r)) ->
                   visb (r_graph r ++ e_new ev) (e_view ev) x = true)
@@ -457,18 +460,15 @@ Proof. apply run_prop_intro. intros. eapply accept_snapshot; eauto. Qed.
 Definition ExemptObs (g : graph) (v : view) (ev : event) (x : nat) : Prop :=
   exists w, wc_of v (e_ws ev) = Some w /\ In w (e_imm_pre ev)
             /\ implicit_wc_cmd (e_cmd ev) = true
-            /\ (x = w \/ (e_cmd ev = CCommit /\ is_anc g w x = true)).
+            /\ x = w.
 
 Lemma exempt_spec g v ev x :
   exempt g (wc_of v (e_ws ev)) (e_cmd ev) (e_imm_pre ev) x = true <-> ExemptObs g v ev x.
 Proof.
   unfold exempt, ExemptObs. destruct (wc_of v (e_ws ev)) as [w|].
-  - rewrite !andb_true_iff, orb_true_iff, Nat.eqb_eq, memn_spec. split.
+  - rewrite !andb_true_iff, Nat.eqb_eq, memn_spec. split.
     + intros [[Hi Hm] Hx]. exists w. repeat split; auto.
-      destruct Hx as [Hx|Hx]; [left; assumption|right].
-      destruct (e_cmd ev); try discriminate. auto.
     + intros [w0 [E [Hm [Hi Hx]]]]. inversion E. subst w0. repeat split; auto.
-      destruct Hx as [Hx|[Hc Hx]]; [left; assumption|right]. now rewrite Hc.
   - split; [discriminate|]. intros [w [E _]]. discriminate.
 Qed.
 
@@ -476,15 +476,16 @@ Qed.
     predecessor or missing afterwards (unless exempt, when not strict), and a command that
     reports an error leaves the operation log and the view alone. *)
 Definition EventOk (strict : bool) (g : graph) (v : view) (ev : event) : Prop :=
-  (forall x, In x (e_imm_pre ev) ->
+  (e_override ev = false -> forall x, In x (e_imm_pre ev) ->
      (In x (e_rewritten ev) \/ ~ In x (e_vis_post ev)) ->
      strict = false /\ ExemptObs g v ev x)
   /\ (e_status ev <> 0%N -> e_nops ev = 0 /\ v = e_view ev).
 
 Lemma event_okb_spec strict g v ev : event_okb strict g v ev = true -> EventOk strict g v ev.
 Proof.
-  unfold event_okb, EventOk. rewrite andb_true_iff, forallb_forall. intros [H1 H2]. split.
-  - intros x Hx Hv. assert (Hin : In x (e_imm_pre ev ++ e_rewritten ev)) by (apply in_or_app; auto).
+  unfold event_okb, EventOk. rewrite andb_true_iff. intros [H1 H2]. split.
+  - intros Hov x Hx Hv. rewrite Hov in H1. cbn [orb] in H1. rewrite forallb_forall in H1.
+    assert (Hin : In x (e_imm_pre ev ++ e_rewritten ev)) by (apply in_or_app; auto).
     specialize (H1 x Hin). apply orb_true_iff in H1. destruct H1 as [H1|H1].
     + apply negb_true_iff in H1. unfold viol in H1.
       apply andb_false_iff in H1. destruct H1 as [H1|H1].
@@ -501,7 +502,8 @@ Qed.
 Lemma event_okb_complete strict g v ev : EventOk strict g v ev -> event_okb strict g v ev = true.
 Proof.
   unfold event_okb, EventOk. intros [H1 H2]. apply andb_true_iff. split.
-  - apply forallb_forall. intros x _. destruct (viol ev x) eqn:Ev; [|reflexivity]. cbn [negb orb].
+  - destruct (e_override ev) eqn:Hov; [reflexivity|]. cbn [orb]. specialize (H1 eq_refl).
+    apply forallb_forall. intros x _. destruct (viol ev x) eqn:Ev; [|reflexivity]. cbn [negb orb].
     unfold viol in Ev. apply andb_true_iff in Ev. destruct Ev as [Hm Hv]. apply memn_spec in Hm.
     apply orb_true_iff in Hv.
     assert (Hv' : In x (e_rewritten ev) \/ ~ In x (e_vis_post ev)).
@@ -543,7 +545,7 @@ Proof.
   intros Hg Hacc. pose proof (accept_inv r ev r' Hacc) as [_ [Hpre Hok]].
   rewrite seteqn_spec in Hpre.
   split.
-  - intros x Hx Hv. split; [reflexivity|].
+  - intros Hov x Hx Hv. split; [reflexivity|].
     apply Hpre in Hx. apply filter_In in Hx. destruct Hx as [Hvis Himm].
     destruct (N.eq_dec (e_status ev) 0) as [Hst|Hst].
     + assert (Ht : Touched r ev x).
@@ -554,17 +556,9 @@ Proof.
         destruct (visb (r_graph r ++ e_new ev) (e_view ev) x) eqn:E; [|reflexivity].
         exfalso. apply Hv. apply Hpost. apply vis_list_spec. split; [|assumption].
         apply vis_list_spec in Hvis. rewrite app_length. lia. }
-      destruct (accept_no_rewrite r ev r' Hg Hacc Hst x Hvis Himm Ht) as [w [Ew [Hiw [Hi Hx]]]].
-      exists w. repeat split; auto.
-      * (* w is shown immutable before: it is visible because x is *)
-        apply Hpre. apply filter_In. split; [|assumption].
-        destruct Hx as [->|[_ Hanc]]; [assumption|].
-        apply vis_list_spec in Hvis. destruct Hvis as [Hlt Hvx].
-        apply vis_list_spec. split.
-        -- pose proof (anc_le _ _ _ Hg Hanc). lia.
-        -- eapply visb_anc; eauto.
-      * destruct Hx as [->|[Hc Hanc]]; [left; reflexivity|right].
-        split; [assumption|]. now apply (is_anc_spec (r_graph r) w x Hg).
+      destruct (accept_no_rewrite r ev r' Hg Hacc Hst Hov x Hvis Himm Ht) as [w [Ew [Hiw [Hi Hx]]]].
+      subst x. exists w. repeat split; auto.
+      apply Hpre. apply filter_In. split; assumption.
     + exfalso. destruct (accept_failed r ev r' Hacc Hst) as [Hu _].
       apply unchanged_parts in Hu. destruct Hu as [_ [_ [_ [Hr Hpost]]]].
       rewrite seteqn_spec in Hpost.
@@ -596,7 +590,7 @@ Lemma accept_ok_tail r ev : accept_ok r ev = true ->
   (e_nops ev = 0 -> r_view r = e_view ev /\ e_new ev = [])
   /\ (e_cmd ev = CObserve -> e_nops ev = 0)
   /\ (0 < e_nops ev -> e_cmd ev <> CWorkspaceAdd -> e_cmd ev <> CObserve ->
-      WcMutable (r_graph r ++ e_new ev) (e_view ev) (e_cfg ev) (e_ws ev)).
+      WcMutable (r_graph r ++ e_new ev) (e_view ev) (eff_cfg ev) (e_ws ev)).
 Proof.
   unfold accept_ok. cbv zeta. rewrite !andb_true_iff.
   intros [[[[_ H9] _] H11] H12]. repeat split.
@@ -612,13 +606,15 @@ Proof.
 Qed.
 
 Lemma accept_wc_mutable r ev r' :
-  accept r ev = Some r' -> e_cmd ev <> CWorkspaceAdd ->
+  accept r ev = Some r' -> e_cmd ev <> CWorkspaceAdd -> e_override ev = false ->
   WcMutable (r_graph r) (r_view r) (e_cfg ev) (e_ws ev) ->
   WcMutable (r_graph r') (r_view r') (e_cfg ev) (e_ws ev).
 Proof.
-  intros Hacc Hc Hpre. pose proof (accept_inv r ev r' Hacc) as [-> [_ Hok]]. cbn [r_graph r_view].
+  intros Hacc Hc Hov Hpre. pose proof (accept_inv r ev r' Hacc) as [-> [_ Hok]]. cbn [r_graph r_view].
+  assert (Heff : eff_cfg ev = e_cfg ev) by (unfold eff_cfg; now rewrite Hov).
   destruct (N.eq_dec (e_status ev) 0) as [Hst|Hst].
   - rewrite Hst in Hok. cbn in Hok. destruct (accept_ok_tail r ev Hok) as [H0 [Hobs Hpos]].
+    rewrite Heff in Hpos.
     destruct (e_nops ev) as [|n] eqn:En.
     + destruct (H0 eq_refl) as [Hv Hn]. rewrite <- Hv, Hn, app_nil_r. exact Hpre.
     + apply Hpos; [lia|assumption|]. intros X. specialize (Hobs X). discriminate.
@@ -635,20 +631,21 @@ Definition Untouched (r : repo) (ev : event) : Prop :=
 
 Lemma run_untouched evs : forall r r' e ws,
   wf_graph (r_graph r) ->
-  (forall ev, In ev evs -> e_cfg ev = e /\ e_ws ev = ws /\ e_cmd ev <> CWorkspaceAdd) ->
+  (forall ev, In ev evs -> e_cfg ev = e /\ e_ws ev = ws /\ e_cmd ev <> CWorkspaceAdd
+                            /\ e_override ev = false) ->
   WcMutable (r_graph r) (r_view r) e ws ->
   run r evs = Some r' -> run_prop Untouched r evs.
 Proof.
   induction evs as [|ev t IH]; intros r r' e ws Hg Hall Hm Hrun; cbn [run_prop]; [exact I|].
   cbn [run] in Hrun. destruct (accept r ev) as [r1|] eqn:Ha; [|discriminate].
-  destruct (Hall ev (or_introl eq_refl)) as [Ee [Ew Ec]].
+  destruct (Hall ev (or_introl eq_refl)) as [Ee [Ew [Ec Eo]]].
   split.
   - intros Hst x Hx Hi Ht.
-    destruct (accept_no_rewrite r ev r1 Hg Ha Hst x Hx Hi Ht) as [w [Hw [Hiw _]]].
+    destruct (accept_no_rewrite r ev r1 Hg Ha Hst Eo x Hx Hi Ht) as [w [Hw [Hiw _]]].
     rewrite Ee, Ew in *. rewrite (Hm w Hw) in Hiw. discriminate.
   - apply (IH r1 r' e ws).
     + eapply accept_wf; eauto.
     + intros ev' Hin. apply Hall. now right.
-    + rewrite <- Ee, <- Ew. apply (accept_wc_mutable r ev r1 Ha Ec). now rewrite Ee, Ew.
+    + rewrite <- Ee, <- Ew. apply (accept_wc_mutable r ev r1 Ha Ec Eo). now rewrite Ee, Ew.
     + exact Hrun.
 Qed.
